@@ -855,9 +855,9 @@ class TermCanvas(Canvas):
                 x += 1
 
                 if x >= self.width and self.is_rotten_cursor:
-                    if y >= self.scrollregion_end:
+                    if y == self.scrollregion_end:
                         self.scroll()
-                    else:
+                    elif y < self.height - 1:
                         y += 1
 
                     x = 1
